@@ -1,47 +1,69 @@
 (* Properties/C09.v — State snapshots revert exactly and the state root commits to content only.
-   Only statements closed by `exact`, with Print Assumptions under each. *)
-From AQ Require Import Lib.Bytes State.StateSpec State.StateModel State.StateProofs State.StateRefute.
+   Only statements closed by `exact`, with Print Assumptions under each.
+   Model: State/StateModel.v (core/state statedb.go, state_object.go, journal.go at content level;
+   H = Keccak-256 is a parameter: nothing is assumed about it except where stated). *)
+From AQ Require Import Lib.Bytes State.StateSpec State.StateModel State.StateProofs State.StateRefute
+  State.StateUndoLemmas State.StateRevertProof State.StatePerm State.StateCopy.
+From Coq Require Import Permutation.
 Import ListNotations.
 Local Open Scope N_scope.
 
-(* FULL-STRENGTH clause 1 (C09_revert_observable), NOT fully proved here:
-     forall H s ops id s1 s2, inv H s -> snapshot s = (s1, id) -> forallb (fun o => negb (is_fin o)) ops = true ->
-       run H ops s1 = Ok s2 -> In id (map fst (st_revs s2)) ->
-       exists s3, revert_to s2 id = Ok s3 /\ obs_eq H s3 s
-   What is proved: (i) the rewind loop of RevertToSnapshot (journal.go undo for all eleven entry kinds,
-   any number of entries) respects observational equivalence — the congruence half of the induction
-   over the journal; (ii) exact restoration of every observable for a journalled balance change on an
-   arbitrary state.  Missing: (ii) for the other ten mutators and the induction over op sequences with
-   the validRevisions invariant (ids increasing, journal indices monotone).  The harness evaluates the
-   full clause on the implementation (oracle O1) for every revert of every generated history. *)
-Theorem C09_rewind_respects_observables_partial :
+(* ------------------------------------------------------------------------------------------ *)
+(* Clause 1: RevertToSnapshot restores every observable.
+
+   For ANY state s satisfying the two structural invariants below, any history `ops` without
+   Finalise/Commit — arbitrary interleaving of the eleven journalled mutators, Prepare, nested
+   Snapshots and RevertToSnapshots (to any id; a revert to a dead id panics and then `run` is not
+   Ok) — if the snapshot `id` taken at s is still live afterwards, reverting to it does not panic
+   and every getter at every address and slot, Exist, Empty, the refund counter, the logs of every
+   transaction hash and the preimages read exactly as they did in s.
+   (GetCodeSize is GetCode's length except for a code store that maps H [] to non-empty code.) *)
+
+(* the invariants, spelled out *)
+Theorem C09_invariants_meaning : forall s : state,
+  (inv s <-> ((forall a, get_obj s a = None -> aget a (st_trie s) = None) /\
+              Forall (fun e => match e with JReset _ p => o_deleted p = false | _ => True end) (st_journal s))) /\
+  (rok s <-> (rsorted (st_revs s) /\
+              Forall (fun r => fst r < st_nextrev s /\ snd r <= lenN (st_journal s)) (st_revs s))).
+Proof. exact (fun s => conj (iff_refl _) (iff_refl _)). Qed.
+Print Assumptions C09_invariants_meaning.
+
+(* they hold of every StateDB opened at a root (statedb.go New) ... *)
+Theorem C09_invariants_fresh : forall trie codes, inv (new_state trie codes) /\ rok (new_state trie codes).
+Proof. exact (fun trie codes => conj (inv_new_state trie codes) (rok_new_state trie codes)). Qed.
+Print Assumptions C09_invariants_fresh.
+
+(* ... and are kept by every operation other than Finalise/Commit *)
+Theorem C09_invariants_step : forall (H : bytes -> bytes) (s s1 : state) (o : op),
+  inv s -> rok s -> is_fin o = false -> step H s o = Ok s1 -> inv s1 /\ rok s1.
+Proof. exact invariants_step. Qed.
+Print Assumptions C09_invariants_step.
+
+Theorem C09_revert_observable :
+  forall (H : bytes -> bytes) (s : state) (ops : list op) (id : N) (s1 s2 : state),
+    inv s -> rok s ->
+    snapshot s = (s1, id) ->
+    forallb (fun o => negb (is_fin o)) ops = true ->
+    run H ops s1 = Ok s2 ->
+    In id (map fst (st_revs s2)) ->
+    exists s3, revert_to s2 id = Ok s3 /\
+      (forall a, account_view H s3 a = account_view H s a) /\
+      (forall a k, get_state s3 a k = get_state s a k) /\
+      (forall a, exist s3 a = exist s a) /\ (forall a, is_empty H s3 a = is_empty H s a) /\
+      get_refund s3 = get_refund s /\ (forall th, get_logs s3 th = get_logs s th) /\
+      (forall h, aget h (st_preimages s3) = aget h (st_preimages s)).
+Proof. exact revert_observable. Qed.
+Print Assumptions C09_revert_observable.
+
+(* the journal half on its own: the rewind loop respects observational equivalence *)
+Theorem C09_rewind_respects_observables :
   forall (H : bytes -> bytes) (n : nat) (s t s' : state),
     sim H s t -> undo_n n s = Ok s' -> exists t', undo_n n t = Ok t' /\ obs_eq H s' t'.
 Proof. exact rewind_respects_observables. Qed.
-Print Assumptions C09_rewind_respects_observables_partial.
+Print Assumptions C09_rewind_respects_observables.
 
-Theorem C09_sim_is_what_getters_see :
-  forall (H : bytes -> bytes) (s t : state), sim H s t ->
-    (forall a, account_view H s a = account_view H t a) /\
-    (forall a k, get_state s a k = get_state t a k) /\
-    (forall a, exist s a = exist t a) /\ (forall a, is_empty H s a = is_empty H t a) /\
-    get_refund s = get_refund t /\ (forall th, get_logs s th = get_logs t th) /\
-    (forall h, aget h (st_preimages s) = aget h (st_preimages t)).
-Proof. exact sim_obs. Qed.
-Print Assumptions C09_sim_is_what_getters_see.
-
-Theorem C09_revert_set_balance_partial :
-  forall (H : bytes -> bytes) (s : state) (a : N) (v : Z) (s1 : state) (id : N) (o : obj),
-    inv s -> get_obj s a = Some o -> snapshot s = (s1, id) -> st_revs s = [] ->
-    exists s3, run H [OSetBal a v; ORevert id] s1 = Ok s3 /\ obs_eq H s3 s.
-Proof. exact revert_set_balance. Qed.
-Print Assumptions C09_revert_set_balance_partial.
-
-Theorem C09_fresh_state_invariant : forall trie codes, inv (new_state trie codes).
-Proof. exact inv_new_state. Qed.
-Print Assumptions C09_fresh_state_invariant.
-
-(* FULL-STRENGTH clause 2 (hidden state), which the code does NOT satisfy:
+(* ------------------------------------------------------------------------------------------ *)
+(* Clause 2 (hidden state), FULL-STRENGTH statement which the code does NOT satisfy:
      forall H s ops id s1 s2, snapshot s = (s1, id) -> no Finalise/Commit in ops ->
        run H (ops ++ [ORevert id]) s1 = Ok s2 -> st_dirty s2 = st_dirty s /\ st_live s2 = st_live s
    Refuted by snapshot / AddBalance(4,5) / revert on a pre-existing EMPTY account: every getter is
@@ -59,22 +81,8 @@ Theorem C09_revert_hidden_refuted :
 Proof. exact revert_hidden_refuted. Qed.
 Print Assumptions C09_revert_hidden_refuted.
 
-(* FULL-STRENGTH clause 3 (root is content, for histories that continue after Commit):
-     forall H s b s' r, commit H b s = Ok (s', r) -> forall a, account leaf of r at a = what the getters of s' report at a
-   Refuted: a write after Commit on the same StateDB is not folded into the next root (the one-shot
-   onDirty callback was consumed, Commit cleared the dirty set).  Go: write-after-commit-lost. *)
-Theorem C09_write_after_commit_refuted :
-  exists (H : bytes -> bytes) (s s1 s2 s3 : state) (r1 r3 : list (N * acct)),
-    commit H true (add_balance H s 1 1%Z) = Ok (s1, r1) /\
-    add_balance H s1 1 1%Z = s2 /\
-    commit H true s2 = Ok (s3, r3) /\
-    get_balance s3 1 = 102%Z /\ get_balance s1 1 = 101%Z /\ r3 = r1 /\
-    option_map a_bal (aget 1 r3) = Some 101%Z.
-Proof. exact write_after_commit_refuted. Qed.
-Print Assumptions C09_write_after_commit_refuted.
-
-(* the same mechanism without a Commit: a reverted touch un-dirties the address but leaves the
-   callback consumed, so the next write is lost.  Go: write-after-reverted-touch-lost. *)
+(* a reverted touch un-dirties the address but leaves the one-shot callback consumed, so the next
+   write is lost.  Go: write-after-reverted-touch-lost. *)
 Theorem C09_write_after_reverted_touch_refuted :
   exists (H : bytes -> bytes) (s s1 s2 : state) (id : N),
     snapshot s = (s1, id) /\
@@ -87,12 +95,107 @@ Theorem C09_write_after_reverted_touch_refuted :
 Proof. exact write_after_reverted_touch_refuted. Qed.
 Print Assumptions C09_write_after_reverted_touch_refuted.
 
-(* non-vacuity: the hypotheses of C09_revert_set_balance_partial hold of a concrete state with a
-   pre-existing funded account, and the concrete history runs: the balance is back, the dirty set is not *)
+(* ------------------------------------------------------------------------------------------ *)
+(* Clause 3: the root commits to content.  FULL-STRENGTH statement for histories that continue
+   after Commit, which the code does NOT satisfy:
+     forall H s b s' r, commit H b s = Ok (s', r) -> the leaf of r at a = what the getters of s' report at a
+   Refuted: a write after Commit on the same StateDB is not folded into the next root (the one-shot
+   onDirty callback was consumed, Commit cleared the dirty set).  Go: write-after-commit-lost. *)
+Theorem C09_write_after_commit_refuted :
+  exists (H : bytes -> bytes) (s s1 s2 s3 : state) (r1 r3 : list (N * acct)),
+    commit H true (add_balance H s 1 1%Z) = Ok (s1, r1) /\
+    add_balance H s1 1 1%Z = s2 /\
+    commit H true s2 = Ok (s3, r3) /\
+    get_balance s3 1 = 102%Z /\ get_balance s1 1 = 101%Z /\ r3 = r1 /\
+    option_map a_bal (aget 1 r3) = Some 101%Z.
+Proof. exact write_after_commit_refuted. Qed.
+Print Assumptions C09_write_after_commit_refuted.
+
+(* What holds instead: under the explicit hypothesis that there are NO UNMARKED WRITES (every live
+   object outside the dirty set reads like its trie leaf), coherent storage write caches, and a
+   code store keyed by a collision-free H, a StateDB re-opened at the committed root reads back
+   identically (nil code = empty code).  The remaining hypothesis excludes the finding
+   deleted-object-rewritten-by-later-finalise (a dirty, already deleted object must be one this
+   Commit deletes again). *)
+Theorem C09_commit_reopen :
+  forall (H : bytes -> bytes), (forall x y, H x = H y -> x = y) ->
+  forall b s s' r,
+    commit H b s = Ok (s', r) ->
+    no_unmarked H s ->
+    (forall a o, aget a (st_live s) = Some o -> st_coherent o) ->
+    (forall a o, aget a (st_live s) = Some o -> NoDup (akeys (o_dirtyst o))) ->
+    NoDup (akeys (st_live s)) ->
+    (forall a o, aget a (st_live s) = Some o -> o_deleted o = true -> nmem a (st_dirty s) = true ->
+                 o_suicided o = true \/ (b = true /\ obj_empty H o = true)) ->
+    (forall h c, bget h (st_codes s) = Some c -> h = H c) ->
+    (forall a o c, aget a (st_live s) = Some o -> o_code o = Some c ->
+                   o_ch o = H c /\ (o_dirtycode o = true \/ bget (o_ch o) (st_codes s) = Some c)) ->
+    let re := new_state r (st_codes s') in
+    forall a, same_account (account_view H re a) (account_view H s' a) /\
+              forall k, get_state re a k = get_state s' a k.
+Proof. exact commit_reopen. Qed.
+Print Assumptions C09_commit_reopen.
+
+(* Copy reads like the original, under the same two hypotheses *)
+Theorem C09_copy_obs :
+  forall (H : bytes -> bytes) s c,
+    copy s = Ok c -> no_unmarked H s ->
+    (forall a o, aget a (st_live s) = Some o -> st_coherent o) ->
+    (forall a, account_view H c a = account_view H s a) /\
+    (forall a k, get_state c a k = get_state s a k) /\
+    get_refund c = get_refund s /\
+    (forall th, get_logs c th = get_logs s th) /\
+    st_preimages c = st_preimages s.
+Proof. exact copy_obs. Qed.
+Print Assumptions C09_copy_obs.
+
+(* ------------------------------------------------------------------------------------------ *)
+(* Clause 4: Go map iteration order does not matter.  `sorted m` = the canonical form of the
+   content-level maps (kept by every model operation); the orders are the explicit arguments. *)
+Theorem C09_update_trie_perm : forall (o1 o2 root : smap),
+  Permutation o1 o2 -> NoDup (map fst o1) -> sorted root ->
+  update_trie_with o1 root = update_trie_with o2 root.
+Proof. exact update_trie_perm. Qed.
+Print Assumptions C09_update_trie_perm.
+
+Theorem C09_finalise_perm : forall (H : bytes -> bytes) (b : bool) (s : state) (o1 o2 : list N),
+  Permutation o1 o2 -> NoDup o1 -> sorted (st_live s) -> sorted (st_trie s) ->
+  finalise_with H o1 b s = finalise_with H o2 b s.
+Proof. exact finalise_perm. Qed.
+Print Assumptions C09_finalise_perm.
+
+(* Commit: everything but the ORDER of the code-store list (bset appends) — in particular the
+   returned root, Panic-ness, the live objects and the dirty set — is order independent.
+   Full statement `commit_with H o1 b s = commit_with H o2 b s` is false of the model's list
+   representation of the code store for that reason only. *)
+Theorem C09_commit_perm_partial : forall (H : bytes -> bytes) (b : bool) (s : state) (o1 o2 : list N),
+  Permutation o1 o2 -> NoDup o1 -> sorted (st_live s) -> sorted (st_trie s) ->
+  rmap (fun p => (erase_codes (fst p), snd p)) (commit_with H o1 b s) =
+  rmap (fun p => (erase_codes (fst p), snd p)) (commit_with H o2 b s).
+Proof. exact commit_perm. Qed.
+Print Assumptions C09_commit_perm_partial.
+
+Theorem C09_commit_root_perm : forall (H : bytes -> bytes) (b : bool) (s : state) (o1 o2 : list N),
+  Permutation o1 o2 -> NoDup o1 -> sorted (st_live s) -> sorted (st_trie s) ->
+  rmap snd (commit_with H o1 b s) = rmap snd (commit_with H o2 b s).
+Proof. exact commit_root_perm. Qed.
+Print Assumptions C09_commit_root_perm.
+
+(* ------------------------------------------------------------------------------------------ *)
+(* non-vacuity: a concrete state (pre-existing funded account 1 and EMPTY account 4) and a history
+   with nested snapshots, a self-destruct, a re-creation of the same account, a touch of a
+   non-existent account and a revert to an inner live id meet every hypothesis of
+   C09_revert_observable (that the hidden state differs afterwards is C09_revert_hidden_refuted). *)
 Example C09_example :
-  inv ex_state /\ get_obj ex_state 1 <> None /\ st_revs ex_state = [] /\
-  match run Lib.Keccak.keccak256 [OSetBal 1 7%Z; ORevert 0] (fst (snapshot ex_state)) with
-  | Ok s3 => get_balance s3 1 = 100%Z /\ st_dirty s3 = [1] /\ st_dirty ex_state = []
+  let ops := [OSetState 4 1 7; OSnapshot; OSuicide 1; OCreate 1; OSetCode 1 [x01]; OAddLog 5; OSnapshot;
+              OAddBal 9 0%Z; OAddRefund 3; ORevert 2; OSetNonce 4 8] in
+  inv ex_state /\ rok ex_state /\ snapshot ex_state = (ra_s1, 0) /\
+  forallb (fun o => negb (is_fin o)) ops = true /\
+  match run Lib.Keccak.keccak256 ops ra_s1 with
+  | Ok s2 => In 0 (map fst (st_revs s2)) /\ sorted (st_live s2) /\ sorted (st_trie s2)
   | Panic => False
   end.
-Proof. split; [exact (inv_new_state ex_trie [])|]. vm_compute. repeat split; discriminate. Qed.
+Proof.
+  split; [exact (inv_new_state ex_trie [])|]. split; [exact (rok_new_state ex_trie [])|].
+  vm_compute. repeat split; auto.
+Qed.
